@@ -91,6 +91,34 @@ impl<'a> G<'a> {
     }
     s
   }
+  /// a loop body; every third one follows the shape "…; <something holding a jump>; return/throw" — the combinations the
+  /// loop end-reason logic has to get right (a `continue`/`break` hidden in an if, switch case, try, labelled block or
+  /// inner loop, before a body that otherwise always returns or throws)
+  fn loop_body(&mut self, cx: &Cx) -> String {
+    if !self.rng.chance(1, 3) {
+      return self.body_stmt(cx);
+    }
+    self.feats.push("loop-body-template");
+    let pre = if self.rng.chance(1, 2) { self.stmt(cx) } else { String::new() };
+    let jump = ["continue;", "break;"][self.rng.below(2)];
+    let holder = match self.rng.below(8) {
+      0 => format!("if ({}) {}", self.cond(), jump),
+      1 => format!("if ({}) {{ f(); }} else {{ {} }}", self.cond(), jump),
+      2 => format!("switch ({}) {{ case 1: {} case 2: f(); break; default: g(); }}", self.cond(), jump),
+      3 => format!("switch ({}) {{ case 1: f(); default: {} }}", self.cond(), jump),
+      4 => format!("try {{ if ({}) {} }} finally {{ f(); }}", self.cond(), jump),
+      5 => format!("try {{ f(); }} catch (e) {{ {} }}", jump),
+      6 => format!("LB: {{ if ({}) {} break LB; }}", self.cond(), jump),
+      _ => format!("for (;;) {{ {} }}", jump),
+    };
+    let end = match self.rng.below(4) {
+      0 if cx.in_fn => "return 1;".to_string(),
+      1 => "throw e;".to_string(),
+      2 if cx.in_fn => "return;".to_string(),
+      _ => "f();".to_string(),
+    };
+    format!("{{ {} {} {} }}", pre, holder, end)
+  }
   fn body_stmt(&mut self, cx: &Cx) -> String {
     // a loop / if body: block or single statement
     if self.rng.chance(2, 3) {
@@ -174,14 +202,14 @@ impl<'a> G<'a> {
         let c = self.cond();
         let mut cx2 = cx.clone();
         cx2.in_loop = true;
-        format!("while ({}) {}", c, self.body_stmt(&cx2))
+        format!("while ({}) {}", c, self.loop_body(&cx2))
       }
       17 | 18 => {
         self.feats.push("do-while");
         let c = self.cond();
         let mut cx2 = cx.clone();
         cx2.in_loop = true;
-        format!("do {} while ({});", self.body_stmt(&cx2), c)
+        format!("do {} while ({});", self.loop_body(&cx2), c)
       }
       19 | 20 => {
         self.feats.push("for");
@@ -194,14 +222,14 @@ impl<'a> G<'a> {
           3 => format!("; {};", self.cond()),
           _ => "let i = f(); i < n; i++".to_string(),
         };
-        format!("for ({}) {}", head, self.body_stmt(&cx2))
+        format!("for ({}) {}", head, self.loop_body(&cx2))
       }
       21 => {
         self.feats.push("for-in-of");
         let mut cx2 = cx.clone();
         cx2.in_loop = true;
         let kw = if self.rng.chance(1, 2) { "in" } else { "of" };
-        format!("for (const k {} xs) {}", kw, self.body_stmt(&cx2))
+        format!("for (const k {} xs) {}", kw, self.loop_body(&cx2))
       }
       22 | 23 => {
         self.feats.push("switch");
